@@ -562,33 +562,29 @@ func runC06(c *Ctx) {
 	}
 	if apr := c.Anchor("O6", pkgConsol, "", "allPodsReallocated"); apr != nil {
 		rel, _ := p.ConstInt(pkgPodStatus, "Releasing")
-		// every "return true" is after the loops; inside the loops a Releasing task returns false
-		n := 0
-		for _, b := range apr.Blocks {
-			for _, s := range b.Succs {
-				if fx.edgeEstablishes(b, s, func(f Fact) bool {
-					return f.Pol && f.T.Op == "bin" && f.T.Name == "==" && f.T.Args[0].lastField() == "Status" && f.T.Args[1].String() == fmt.Sprintf("const:%d", rel)
-				}) {
-					n++
-					// from this edge only "return false" is reachable
-					bad := false
-					for _, rb := range apr.Blocks {
-						ret, ok := rb.Instrs[len(rb.Instrs)-1].(*ssa.Return)
-						if !ok {
-							continue
-						}
-						if k, ok := ret.Results[0].(*ssa.Const); ok && k.Value.ExactString() == "false" {
-							continue
-						}
-						if _, _, found := reachAvoiding([]cfgPos{{B: s, I: 0}}, func(x ssa.Instruction) bool { return x == ssa.Instruction(ret) }, nil, nil); found {
-							bad = true
-						}
-					}
-					c.Check(!bad, "O6", "RET", funcKey(apr)+": a still-evicted victim rejects the scenario", apr.Pos(), "Status==Releasing ⇒ false", "consolidation can accept a scenario in which a victim pod stays evicted (not re-placed)")
-				}
+		// GHOST: ANY victim task that is still Releasing makes the answer false — for every number of victims and
+		// tasks and whatever form the loops take (early return, flag, counter, slices.ContainsFunc)
+		relConst := fmt.Sprintf("const:%d", rel)
+		okG, und, desc := p.ghostForall(apr, func(in ssa.Instruction) (ssa.Value, bool, bool) {
+			bo, ok := in.(*ssa.BinOp)
+			if !ok || (bo.Op != token.EQL && bo.Op != token.NEQ) {
+				return nil, false, false
 			}
+			x, y := termOf(bo.X), termOf(bo.Y)
+			if !((x.lastField() == "Status" && y.String() == relConst) || (y.lastField() == "Status" && x.String() == relConst)) {
+				return nil, false, false
+			}
+			return bo, bo.Op == token.EQL, true
+		}, triF)
+		if und != "" {
+			c.Undec("O6", "GHOST", funcKey(apr)+": any still-evicted victim task rejects the scenario", apr.Pos(), und)
+		} else {
+			c.Check(okG, "O6", "GHOST", funcKey(apr)+": any still-evicted victim task rejects the scenario", apr.Pos(), desc,
+				"allPodsReallocated can answer true although some victim task is still Releasing (the verdict is not sticky over the victims / tasks): consolidation then evicts a pod it has no place for — "+desc)
 		}
-		c.Floor("O6", "RET releasing tests", n, 1)
+		// (the earlier edge-based form of this rule — 'from the Releasing edge only return false is reachable' — is
+		// subsumed by the GHOST obligation above, which also accepts flag and counter forms of the same loop)
+		_ = fx
 	}
 }
 
